@@ -1,0 +1,5 @@
+//go:build !verif
+
+package threshold
+
+func verifPoint(string) {}
